@@ -9,6 +9,12 @@ PY = "/venv/bin/python -B"
 
 # pid -> (technique, level text, level note, design ref)
 BUILT = {
+    "C01": ("grammar-based program generation (Hypothesis) with a validity oracle, in-process and through the CLI",
+            "Programs are drawn from the conforming-program grammar (sources and headers, every constant family, nested control flow, continuation lines); "
+            "each must be accepted: status OK, no Error-level diagnostic, CLI prints '<name>: OK!' and exits 0. Sampled from an infinite family; failures are bucketed by "
+            "(diagnostic code, lexeme classes around it).",
+            "The grammar is the trusted definition of conformance (narrowest reading of the Norm); constructs that are open findings are excluded by construction, counted, and re-observed on fixed probes.",
+            "§4.1"),
     "C09": ("exhaustive small-alphabet enumeration + Hypothesis lexeme soups against an independent alignment scanner",
             "Every token position is compared with the position recomputed from the raw text by a scanner that shares no code with the lexer; "
             "all strings up to a length bound over two reduced lexical alphabets are enumerated completely and longer lexeme soups are sampled. "
